@@ -332,7 +332,7 @@ func TestSelfWire(t *testing.T) {
 		t.Fatal(err)
 	}
 	var v struct {
-		Valid []struct{ DER, R, S string }
+		Valid   []struct{ DER, R, S string }
 		Invalid struct {
 			Decode []struct {
 				Exception string
